@@ -48,6 +48,7 @@ func ReadPointCloud(in io.Reader) (*modeling.Mesh, error) {
 	readColor := false
 
 	curLine := 0
+	fieldCount := 0
 	for scanner.Scan() && curLine < parsedCount {
 		line := strings.TrimSpace(scanner.Text())
 		if line == "" {
@@ -55,7 +56,10 @@ func ReadPointCloud(in io.Reader) (*modeling.Mesh, error) {
 		}
 
 		contents := strings.Fields(line)
-		if len(contents) < 3 {
+		if curLine == 0 {
+			fieldCount = len(contents)
+		}
+		if len(contents) < 3 || len(contents) != fieldCount {
 			return nil, io.ErrUnexpectedEOF
 		}
 
